@@ -357,7 +357,21 @@ def c02(ctx):
     ctx.extra["not_exhaustive"] = True
 
 
+def c04(ctx):
+    ctx.gotest("cc", "^TestVerifC04", race=True, timeout=3000)
+    c04_level2(ctx)
+
+
+def c04_level2(ctx):
+    pass
+
+
 SPECS = {
+    "C04": {"fn": c04, "level": "exploration",
+            "technique": "runtime monitoring: truth-table oracle over (a) the real testResults driven through its entry points from concurrent goroutines and (b) the real runner binary with scripted helper peers realising each outcome kind; observed: report() value / process exit status, FAILED and INFO lines, summary totals",
+            "text": "Every assignment of outcome kind x marking x feedback to 1-2 cases (3 cases stratified/complete) and random assignments to 4-12 cases are applied to the real results object and the printed report is compared with the truth table (verdict, naming of every failing case, accounting of every case exactly once). The same rows are realised end to end with the real binary and a scripted client/server (verifpeer).",
+            "note": "For could-not-run / no-outcome rows the success verdict is taken at the process level only (report() && err == nil).",
+            "assumptions": ["truth table of DESIGN.md C04"]},
     "C02": {"fn": c02, "level": "exploration",
             "technique": "runtime monitoring end to end: seeded generator of well-formed test cases run through the real runner against the real reference and gRPC peers in every mode; the runner's per-permutation verdict and peer feedback are the observation; in-process crash monitor (recover + input on disk) for suite loading",
             "text": "Generated cases (deterministic fragment of the schema) are expanded by the real runner over the full shipped matrix and executed against the reference server, the reference client, both as external processes, and the grpc-go peers; any FAILED line, feedback or crash is a disagreement between the derived expectation and the peers; each failure class is re-run alone twice before it counts. 10^4-10^5 arbitrary parseable suites are fed to parseTestSuites/newTestCaseLibrary and must yield an error or a library, never a panic.",
